@@ -34,6 +34,10 @@ REG["C30"] = dict(
          "(one byte changed at the end/front/middle, one byte more or less, trailing zero bytes, common prefixes of 31/32/33/64/len "
          "bytes with different tails, the salt doubled, \"ALPS\", empty): equal salts <-> equal first 32 stream bytes, all different "
          "from the unsalted stream (Go-side oracle on every pair, Coq-side oracle on a sample of short pairs). "
+         "Seed-by-value: every entry point taking a *PRNGSeed is called through ONE seed variable whose contents are overwritten "
+         "between calls (2..4 seed values, 2..4 salts and unsalted, same salt again / another salt, 8..17 interleaved calls per round), "
+         "compared with the same (value, salt) through a variable of its own that is never written again; some PRNGs are drawn from "
+         "only after their seed variable has been scribbled over; the call must not change the caller's seed. "
          "Distinct by (call,args,seed); non-trivial when n>1 / max>lo / 0<w<1 / perm n>2.",
     trusted_base=["verif_export.go VerifPRNG wrapper", "x/crypto/sha3 SHAKE256 (stream recomputation)",
                   "IEEE-754 float64 laws as Section hypotheses (monotone rounding; 0,1,2^63,2^-63 representable); executable rne validated against Go"],
